@@ -21,7 +21,7 @@ Dom(k, L) ==
       [] k = "xref"      -> {"table", "stream"}
       \* compressed objects need a cross-reference stream (7.5.8)
       [] k = "objstm"    -> IF L["xref"] = "stream" THEN {"none", "dicts", "dictsflate"} ELSE {"none"}
-      [] k = "filter"    -> {"none", "fl", "ahx", "a85", "a85fl", "ahxfl", "flpng"}
+      [] k = "filter"    -> {"none", "fl", "ahx", "a85", "a85fl", "ahxfl", "flpng", "fltiff"}
       [] k = "length"    -> {"direct", "refBefore", "refAfter"}
       [] k = "size"      -> {"small", "big", "huge"}
       [] k = "split"     -> 1..3
